@@ -318,7 +318,9 @@ class Row:
     def _replace(self, **kw):
         d = dict(self._d)
         d.update(kw)
-        return Row(d, self._fields)
+        r = Row(d, self._fields)
+        r.__dict__["_exact"] = self.__dict__.get("_exact", False)          # a row of a literal table stays one literal row
+        return r
 
     def _asdict(self):
         return dict(self._d)
